@@ -1793,13 +1793,17 @@ class SymEval:
             raise Opaque('subscript %s: %s' % (norm(n), e))
         if isinstance(base, sp.Basic) and idx is Ellipsis:
             return base
-        if isinstance(base, (int, sp.Integer, float, sp.Float)) and not isinstance(base, bool):
-            raise WouldRaise('TypeError: %s is not subscriptable in %s' % (type(base).__name__, norm(n)))
         if isinstance(base, (int, float)) or (isinstance(base, sp.Basic) and (base.is_number or base.is_Symbol)):
-            # a plain number (what unpacking or integer indexing of an array yields) is not subscriptable and does not support item assignment
+            # a number taken out of an array is a numpy scalar: it can be read through `...`, newaxis, () or a 0-d boolean (giving an array), nothing else
+            parts = idx if isinstance(idx, tuple) else (idx,)
+            if all(q is Ellipsis or q is None or isinstance(q, (bool, np.bool_)) or (is_arr(q) and q.dtype == bool and q.ndim == 0) for q in parts):
+                try:
+                    return np.asarray(base, dtype=object)[idx]
+                except (IndexError, TypeError):
+                    pass
             if self.try_depth > 0:
-                raise _PyRaise('TypeError')
-            raise WouldRaise('TypeError: a number is not subscriptable in %s' % norm(n))
+                raise _PyRaise('IndexError')
+            raise WouldRaise('IndexError: invalid index to scalar variable in %s' % norm(n))
         raise Opaque('subscript of %s: %s' % (type(base).__name__, norm(n)))
 
     def index(self, s, p):
